@@ -154,9 +154,13 @@ pub fn raw_name_to_ts_field(value: String) -> String {
     }
 }
 
-/// Escapes `\` and `"`, so that the text can be placed between double quotes in TypeScript.
+/// Escapes `\`, `"` and line breaks, so that the text can be placed between double quotes in
+/// TypeScript.
 pub fn escape_string(text: &str) -> String {
-    text.replace('\\', "\\\\").replace('"', "\\\"")
+    text.replace('\\', "\\\\")
+        .replace('"', "\\\"")
+        .replace('\n', "\\n")
+        .replace('\r', "\\r")
 }
 
 /// An expression which evaluates to the string `name` evaluates to, escaped for use between
